@@ -11,6 +11,12 @@
 (* Representation: <<d1, ..., dn>> denotes  SUM d_i * 4096^(i-1).          *)
 (* Values need not be normalised (trailing zero digits are allowed) on     *)
 (* input; every operator returns a normalised value.                       *)
+(*                                                                         *)
+(* Evaluation note: TLC evaluates an operator ARGUMENT at most once, but   *)
+(* re-evaluates a LET-bound name on every reference.  Anything expensive   *)
+(* that is used more than once is therefore passed through a helper        *)
+(* operator (the ...Step / ...1 operators below) instead of being LET-     *)
+(* bound.  The meaning is the same.                                        *)
 (***************************************************************************)
 EXTENDS Integers, Sequences
 
@@ -62,19 +68,19 @@ Eq(a, b)  == Cmp(a, b) = 0
 (* Addition and subtraction (Sub requires a >= b)                          *)
 (***************************************************************************)
 RECURSIVE AddRec(_, _, _, _, _)
+AddStep(a, b, i, n, s) == <<((s) % BASE)>> \o AddRec(a, b, i + 1, s \div BASE, n)
 AddRec(a, b, i, c, n) ==
     IF i > n THEN (IF c = 0 THEN << >> ELSE <<c>>)
-    ELSE LET s == Dig(a, i) + Dig(b, i) + c
-         IN  <<((s) % BASE)>> \o AddRec(a, b, i + 1, s \div BASE, n)
+    ELSE AddStep(a, b, i, n, Dig(a, i) + Dig(b, i) + c)
 
 Add(a, b) == Norm(AddRec(a, b, 1, 0, Max(Len(a), Len(b))))
 
 RECURSIVE SubRec(_, _, _, _, _)
+SubStep(a, b, i, n, s) == IF s < 0 THEN <<s + BASE>> \o SubRec(a, b, i + 1, 1, n)
+                                   ELSE <<s>> \o SubRec(a, b, i + 1, 0, n)
 SubRec(a, b, i, br, n) ==
     IF i > n THEN << >>
-    ELSE LET s == Dig(a, i) - Dig(b, i) - br
-         IN  IF s < 0 THEN <<s + BASE>> \o SubRec(a, b, i + 1, 1, n)
-                      ELSE <<s>> \o SubRec(a, b, i + 1, 0, n)
+    ELSE SubStep(a, b, i, n, Dig(a, i) - Dig(b, i) - br)
 
 Sub(a, b) == Norm(SubRec(a, b, 1, 0, Max(Len(a), Len(b))))
 
@@ -87,12 +93,10 @@ ColSum(a, b, k, i, hi) ==    \* SUM_{j=i..hi} a[j] * b[k - j + 1]    (1-based, c
     IF i > hi THEN 0 ELSE a[i] * b[k - i + 1] + ColSum(a, b, k, i + 1, hi)
 
 RECURSIVE MulRec(_, _, _, _, _)
+MulStep(a, b, k, n, s) == <<((s) % BASE)>> \o MulRec(a, b, k + 1, s \div BASE, n)
 MulRec(a, b, k, c, n) ==     \* columns k..n with incoming carry c
     IF k > n THEN FromInt(c)
-    ELSE LET lo == Max(1, k - Len(b) + 1)
-             hi == Min(k, Len(a))
-             s  == ColSum(a, b, k, lo, hi) + c
-         IN  <<((s) % BASE)>> \o MulRec(a, b, k + 1, s \div BASE, n)
+    ELSE MulStep(a, b, k, n, ColSum(a, b, k, Max(1, k - Len(b) + 1), Min(k, Len(a))) + c)
 
 Mul(a, b) ==
     IF Len(a) = 0 \/ Len(b) = 0 THEN << >>
@@ -131,7 +135,8 @@ Bit(a, i) == ((Dig(a, (i \div DBITS) + 1) \div Pow2Int(((i) % DBITS))) % 2)    \
 
 RECURSIVE BitLenInt(_)
 BitLenInt(n) == IF n = 0 THEN 0 ELSE 1 + BitLenInt(n \div 2)
-BitLen(a) == LET b == Norm(a) IN IF Len(b) = 0 THEN 0 ELSE (Len(b) - 1) * DBITS + BitLenInt(b[Len(b)])
+BitLen1(b) == IF Len(b) = 0 THEN 0 ELSE (Len(b) - 1) * DBITS + BitLenInt(b[Len(b)])
+BitLen(a) == BitLen1(Norm(a))
 
 IsOdd(a) == ((Dig(a, 1)) % 2) = 1
 
